@@ -7,6 +7,8 @@ import (
 	"bytes"
 	"context"
 	"fmt"
+	"sync"
+	"sync/atomic"
 	"testing"
 	"time"
 
@@ -18,6 +20,7 @@ import (
 	libshare "github.com/celestiaorg/go-square/v4/share"
 
 	vk "github.com/celestiaorg/celestia-node/internal/verifkit"
+	"github.com/celestiaorg/celestia-node/share"
 	"github.com/celestiaorg/celestia-node/share/eds"
 	"github.com/celestiaorg/celestia-node/share/shwap"
 	bitswappb "github.com/celestiaorg/celestia-node/share/shwap/p2p/bitswap/pb"
@@ -572,7 +575,43 @@ func (f *ownedExchange) GetBlocks(_ context.Context, cids []cid.Cid) (<-chan blo
 func (f *ownedExchange) NotifyNewBlocks(context.Context, ...blocks.Block) error { return nil }
 func (f *ownedExchange) Close() error                                          { return nil }
 
+// c10Gated wraps a Block so that the harness owns two more scheduling points of a fetch:
+//   - regGate: UnmarshalFn(root) - which fetch calls while it registers the request - returns only
+//     when the harness says so (two fetches of one identifier can then overlap in registration);
+//   - verify gate: the unmarshal closure the hasher runs parks once before verifying (a second
+//     delivery for the same identifier can then arrive while the first is being verified).
+type c10Gated struct {
+	Block
+	regGate chan struct{}
+	parked  chan struct{}
+	once    sync.Once
+	vgate   atomic.Pointer[c10VerifyGate]
+}
+
+type c10VerifyGate struct {
+	armed   atomic.Bool
+	parked  chan struct{}
+	release chan struct{}
+}
+
+func (g *c10Gated) UnmarshalFn(root *share.AxisRoots) UnmarshalFn {
+	if g.regGate != nil {
+		g.once.Do(func() { close(g.parked) })
+		<-g.regGate
+	}
+	inner := g.Block.UnmarshalFn(root)
+	return func(c, id []byte) error {
+		if vg := g.vgate.Load(); vg != nil && vg.armed.CompareAndSwap(true, false) {
+			close(vg.parked)
+			<-vg.release
+		}
+		return inner(c, id)
+	}
+}
+
 type c10Fetcher struct {
+	blks    []*c10Gated
+	gated   bool // started with its registration gated and not yet released
 	reqs      []c10Req
 	ex        *ownedExchange
 	call      *ownedCall
@@ -652,7 +691,15 @@ func TestVerifC10_Fetch(t *testing.T) {
 		defer func() {
 			for _, f := range fetchers {
 				f.cancel()
-				if f.started && !f.finished {
+				if f.gated {
+					close(f.blks[0].regGate)
+					f.gated = false
+					select {
+					case f.call = <-f.ex.calls:
+					case <-f.done:
+					}
+				}
+				if f.started && !f.finished && f.call != nil {
 					close(f.call.out)
 					<-f.done
 				}
@@ -667,9 +714,16 @@ func TestVerifC10_Fetch(t *testing.T) {
 		labels := map[string]bool{}
 		infra := func(msg string) { t.Fatalf("VERIF-INFRA C10 harness: %s (history %v)", msg, history) }
 
-		start := func(k int) {
+		launch := func(k int, gated bool) {
 			f := fetchers[k]
 			f.started = true
+			f.blks = make([]*c10Gated, nreq)
+			for i := range f.reqs {
+				f.blks[i] = &c10Gated{Block: f.reqs[i].blk}
+			}
+			if gated {
+				f.blks[0].regGate, f.blks[0].parked = make(chan struct{}), make(chan struct{})
+			}
 			go func() {
 				defer close(f.done)
 				defer func() {
@@ -678,11 +732,14 @@ func TestVerifC10_Fetch(t *testing.T) {
 					}
 				}()
 				blks := make([]Block, nreq)
-				for i := range f.reqs {
-					blks[i] = f.reqs[i].blk
+				for i := range f.blks {
+					blks[i] = f.blks[i]
 				}
 				f.err = Fetch(f.ctx, f.ex, sq.Roots, blks)
 			}()
+		}
+		arrive := func(k int) {
+			f := fetchers[k]
 			select {
 			case f.call = <-f.ex.calls:
 			case <-f.done:
@@ -696,7 +753,42 @@ func TestVerifC10_Fetch(t *testing.T) {
 					f.original[i] = true
 				}
 			}
+		}
+		start := func(k int) {
+			launch(k, false)
+			arrive(k)
 			history = append(history, fmt.Sprintf("start(%d)", k))
+		}
+		startGated := func(k int) {
+			launch(k, true)
+			f := fetchers[k]
+			select {
+			case <-f.blks[0].parked:
+				f.gated = true
+				history = append(history, fmt.Sprintf("startGated(%d)", k))
+				labels["registration-overlap"] = true
+			case f.call = <-f.ex.calls:
+				// the fetch went to the exchange without building its unmarshal closure first (an
+				// implementation may skip that for a request it treats as a duplicate): it is started
+				for i := range owner {
+					if owner[i] == -1 {
+						owner[i] = k
+						f.original[i] = true
+					}
+				}
+				history = append(history, fmt.Sprintf("startGated(%d)->not gated", k))
+			case <-f.done:
+				infra(fmt.Sprintf("gated Fetch of fetcher %d returned before registering: err=%v panic=%v", k, f.err, f.panicked))
+			case <-time.After(20 * time.Second):
+				infra("gated Fetch neither reached its registration nor the exchange within 20s")
+			}
+		}
+		ungate := func(k int) {
+			f := fetchers[k]
+			close(f.blks[0].regGate)
+			f.gated = false
+			arrive(k)
+			history = append(history, fmt.Sprintf("ungate(%d)", k))
 		}
 		finish := func(k int, cancelFirst bool) {
 			f := fetchers[k]
@@ -807,7 +899,110 @@ func TestVerifC10_Fetch(t *testing.T) {
 			f.satisfied[i] = true
 		}
 
-		start(0)
+		// deliverRacing: a first delivery for want i is parked inside the verification of the
+		// registered request (it holds the entry lock there); meanwhile another peer's block - the
+		// other square's block with the requested CID - arrives for the same identifier. The second
+		// delivery must not be declared valid while the request is still empty.
+		deliverRacing := func(k, i int, firstFam string) {
+			f := fetchers[k]
+			o := fetchers[owner[i]]
+			want := f.reqs[i].blk.CID()
+			firstData := bad[i]
+			if firstFam == "honest" {
+				firstData = honest[i]
+			}
+			wasEmpty := o.reqs[i].empty()
+			vg := &c10VerifyGate{parked: make(chan struct{}), release: make(chan struct{})}
+			vg.armed.Store(true)
+			o.blks[i].vgate.Store(vg)
+			type verdict struct {
+				ok       bool
+				panicked any
+			}
+			r1, r2 := make(chan verdict, 1), make(chan verdict, 1)
+			go func() { ok, p := accepts(want, firstData); r1 <- verdict{ok, p} }()
+			var v1, v2 verdict
+			got1 := false
+			select {
+			case <-vg.parked:
+			case v1 = <-r1:
+				got1 = true // did not reach the verification (e.g. request already filled)
+			case <-time.After(20 * time.Second):
+				infra("a delivery neither parked in verification nor returned within 20s")
+			}
+			go func() { ok, p := accepts(want, bad[i]); r2 <- verdict{ok, p} }()
+			got2 := false
+			if !got1 {
+				select {
+				case v2 = <-r2:
+					got2 = true
+				case <-time.After(150 * time.Millisecond): // schedule control only: the second delivery waits for the first
+				}
+				if got2 && v2.ok && wasEmpty && o.reqs[i].empty() {
+					close(vg.release)
+					<-r1
+					t.Fatalf("C10 a block of another square was declared valid for %s while an earlier delivery for the same identifier was still being verified and the request was empty (history %v)",
+						f.reqs[i].desc, history)
+				}
+				close(vg.release)
+				v1 = <-r1
+			}
+			if !got2 {
+				select {
+				case v2 = <-r2:
+				case <-time.After(20 * time.Second):
+					infra("second delivery did not return within 20s after the first was released")
+				}
+			}
+			o.blks[i].vgate.Store(nil)
+			if v1.panicked != nil || v2.panicked != nil {
+				t.Fatalf("C10 hasher panicked during racing deliveries for %s: %v %v (history %v)", f.reqs[i].desc, v1.panicked, v2.panicked, history)
+			}
+			history = append(history, fmt.Sprintf("deliverRacing(%d,%s,first=%s)->%v,%v", k, f.reqs[i].desc, firstFam, v1.ok, v2.ok))
+			labels["racing-deliveries"] = true
+			if firstFam == "honest" && wasEmpty && !v1.ok {
+				t.Fatalf("C10 honest block for %s was rejected (history %v)", f.reqs[i].desc, history)
+			}
+			if (v1.ok && firstFam == "bad" || v2.ok) && o.reqs[i].empty() {
+				t.Fatalf("C10 a block of another square was accepted for %s while the registered request is still empty (history %v)", f.reqs[i].desc, history)
+			}
+			// what Bitswap hands to the session: the first accepted block for the want
+			var data []byte
+			switch {
+			case v1.ok:
+				data = firstData
+				if firstFam == "bad" {
+					f.gotBad = true
+				}
+			case v2.ok:
+				data = bad[i]
+				f.gotBad = true
+			default:
+				return
+			}
+			if v2.ok {
+				labels["bad-accepted-after-filled"] = true
+			}
+			b, err := blocks.NewBlockWithCid(data, want)
+			c10must(t, err)
+			select {
+			case f.call.out <- b:
+			case <-f.done:
+				if f.panicked != nil {
+					t.Fatalf("C10 Fetch panicked: %v (history %v)", f.panicked, history)
+				}
+				infra("Fetch returned while a block was being delivered")
+			case <-time.After(20 * time.Second):
+				infra("Fetch did not take a delivered block within 20s")
+			}
+			f.satisfied[i] = true
+		}
+
+		if rapid.IntRange(0, 3).Draw(t, "firstgated") == 0 {
+			startGated(0)
+		} else {
+			start(0)
+		}
 		t.Repeat(map[string]func(*rapid.T){
 			"idle": func(*rapid.T) {},
 			"start": func(t *rapid.T) {
@@ -822,10 +1017,56 @@ func TestVerifC10_Fetch(t *testing.T) {
 				}
 				t.Skip("all started")
 			},
+			"startGated": func(t *rapid.T) {
+				for k, f := range fetchers {
+					if !f.started {
+						startGated(k)
+						if k > 0 {
+							labels["duplicate-fetcher"] = true
+						}
+						return
+					}
+				}
+				t.Skip("all started")
+			},
+			"ungate": func(t *rapid.T) {
+				for k, f := range fetchers {
+					if f.gated {
+						ungate(k)
+						return
+					}
+				}
+				t.Skip("nobody is gated")
+			},
+			"deliverRacing": func(t *rapid.T) {
+				var live []int
+				for k, f := range fetchers {
+					if f.started && !f.finished && !f.gated {
+						live = append(live, k)
+					}
+				}
+				if len(live) == 0 {
+					t.Skip("nobody waits")
+				}
+				k := live[rapid.IntRange(0, len(live)-1).Draw(t, "fetcher")]
+				f := fetchers[k]
+				var open []int
+				for i, sat := range f.satisfied {
+					if !sat && owner[i] >= 0 && !fetchers[owner[i]].gated && bad[i] != nil {
+						open = append(open, i)
+					}
+				}
+				if len(open) == 0 {
+					t.Skip("nothing to race on")
+				}
+				i := open[rapid.IntRange(0, len(open)-1).Draw(t, "want")]
+				firstFam := rapid.SampledFrom([]string{"bad", "honest"}).Draw(t, "firstfam")
+				deliverRacing(k, i, firstFam)
+			},
 			"deliver": func(t *rapid.T) {
 				var live []int
 				for k, f := range fetchers {
-					if f.started && !f.finished {
+					if f.started && !f.finished && !f.gated {
 						live = append(live, k)
 					}
 				}
@@ -850,7 +1091,7 @@ func TestVerifC10_Fetch(t *testing.T) {
 			"finish": func(t *rapid.T) {
 				var live []int
 				for k, f := range fetchers {
-					if f.started && !f.finished {
+					if f.started && !f.finished && !f.gated {
 						live = append(live, k)
 					}
 				}
@@ -882,6 +1123,11 @@ func TestVerifC10_Fetch(t *testing.T) {
 				finish(k, !all)
 			},
 		})
+		for k, f := range fetchers {
+			if f.gated {
+				ungate(k)
+			}
+		}
 		for k, f := range fetchers {
 			if f.started && !f.finished {
 				all := true
